@@ -218,6 +218,158 @@ theorem binLoop_counts (ts dat : Array Int) (maxt : Nat) (hm : maxt ≤ ts.size)
             simpa using this
           omega
 
+/-! ## bin_average: the sum of exactly the bin's samples -/
+
+/-- sum of the data of the samples with index in `[t, maxt)` and timestamp in the half-open bin `[a, b)` -/
+def sumBin (ts dat : Array Int) (t maxt : Nat) (a b : Int) : Int :=
+  (((List.range maxt).filter fun i => decide (t ≤ i) && decide (a ≤ ts[i]!) && decide (ts[i]! < b)).map
+    fun i => dat.getD i 0).sum
+
+/-- sum of `dat` over the positions `t .. t'-1` -/
+def idxSum (dat : Array Int) (t t' : Nat) : Int :=
+  (((List.range t').filter fun i => decide (t ≤ i)).map fun i => dat.getD i 0).sum
+
+theorem idxSum_self (dat : Array Int) (t : Nat) : idxSum dat t t = 0 := by
+  unfold idxSum
+  have : ((List.range t).filter fun i => decide (t ≤ i)) = [] := by
+    rw [List.filter_eq_nil_iff]; intro i hi; simp only [List.mem_range] at hi; simp; omega
+  rw [this]; rfl
+
+theorem idxSum_succ (dat : Array Int) (t t' : Nat) (h : t ≤ t') :
+    idxSum dat t (t'+1) = idxSum dat t t' + dat.getD t' 0 := by
+  unfold idxSum
+  rw [List.range_succ, List.filter_append, List.map_append, List.sum_append]
+  simp [h]
+
+theorem countIn_sum (ts dat : Array Int) (maxt : Nat) (hm : maxt ≤ ts.size) (rb : Int) (t c : Nat) (s : Int)
+    (t0 : Nat) (ht0 : t0 ≤ t) (ht : t ≤ maxt) :
+    (countIn ts dat maxt hm rb t c s).2.2 - idxSum dat t0 (countIn ts dat maxt hm rb t c s).1 = s - idxSum dat t0 t := by
+  fun_induction countIn ts dat maxt hm rb t c s with
+  | case1 t c s h hlt ih =>
+    rw [ih (by omega) (by omega), idxSum_succ dat t0 t ht0]; omega
+  | case2 t c s h hge => rfl
+  | case3 t c s h => rfl
+
+theorem filter_range_lt (p : Nat → Bool) (n m : Nat) (h : m ≤ n) :
+    ((List.range n).filter fun i => p i && decide (i < m)) = (List.range m).filter p := by
+  induction n with
+  | zero =>
+    have : m = 0 := by omega
+    subst this; rfl
+  | succ n ih =>
+    rw [List.range_succ, List.filter_append]
+    rcases Nat.eq_or_lt_of_le h with e | e
+    · subst e
+      have e1 : ((List.range n).filter fun i => p i && decide (i < n + 1)) = (List.range n).filter p := by
+        apply List.filter_congr
+        intro i hi; simp only [List.mem_range] at hi
+        simp [Nat.lt_succ_of_lt hi]
+      rw [e1, List.range_succ, List.filter_append]
+      congr 1
+      cases hp : p n <;> simp [List.filter, hp]
+    · rw [ih (by omega)]
+      have : ¬ n < m := by omega
+      simp [this]
+
+/-- **the innermost scan sums exactly the data of the samples of the bin** (same hypotheses as `countIn_counts`) -/
+theorem countIn_sums (ts dat : Array Int) (maxt : Nat) (hm : maxt ≤ ts.size) (hs : Sorted ts) (lb rb : Int) (t : Nat)
+    (ht : t ≤ maxt) (hlb : ∀ i, t ≤ i → i < maxt → (hi : i < ts.size) → lb ≤ ts[i]) :
+    (countIn ts dat maxt hm rb t 0 0).2.2 = sumBin ts dat t maxt lb rb := by
+  obtain ⟨c1, c2, c3, c4, c5⟩ := countIn_counts ts dat maxt hm hs lb rb t ht hlb
+  have hsum := countIn_sum ts dat maxt hm rb t 0 0 t (Nat.le_refl _) ht
+  rw [idxSum_self] at hsum
+  have hs' : (countIn ts dat maxt hm rb t 0 0).2.2 = idxSum dat t (countIn ts dat maxt hm rb t 0 0).1 := by omega
+  rw [hs']
+  generalize (countIn ts dat maxt hm rb t 0 0).1 = r1 at *
+  unfold sumBin idxSum
+  have e : ((List.range maxt).filter fun i => decide (t ≤ i) && decide (lb ≤ ts[i]!) && decide (ts[i]! < rb)) =
+      ((List.range maxt).filter fun i => decide (t ≤ i) && decide (i < r1)) := by
+    apply List.filter_congr
+    intro i hi
+    simp only [List.mem_range] at hi
+    have hi' : i < ts.size := by omega
+    rw [getElem!_pos ts i hi']
+    by_cases hti : t ≤ i
+    · have := hlb i hti hi hi'
+      by_cases hir : i < r1
+      · have := c5 i hti hir hi'
+        simp [*]
+      · have := c4 i (by omega) hi hi'
+        have hn : ¬ ts[i] < rb := by omega
+        simp [hti, hir, hn]
+    · simp [hti]
+  rw [e, filter_range_lt (fun i => decide (t ≤ i)) maxt r1 c3]
+
+theorem sumBin_shift (ts dat : Array Int) (t t' maxt : Nat) (hm : maxt ≤ ts.size) (a b : Int) (htt : t ≤ t')
+    (hlow : ∀ i, t ≤ i → i < t' → (hi : i < ts.size) → ts[i] < a) :
+    sumBin ts dat t maxt a b = sumBin ts dat t' maxt a b := by
+  unfold sumBin
+  congr 2
+  apply List.filter_congr
+  intro i hi
+  simp only [List.mem_range] at hi
+  have hi' : i < ts.size := by omega
+  rw [getElem!_pos ts i hi']
+  by_cases h1 : t' ≤ i
+  · have : t ≤ i := by omega
+    simp [h1, this]
+  · by_cases h2 : t ≤ i
+    · have := hlow i h2 (by omega) hi'
+      have hn : ¬ a ≤ ts[i] := by omega
+      simp [h1, h2, hn]
+    · simp [h1, h2]
+
+/-- **every reported bin holds the SUM of exactly its own samples' data** — so `bin_average` = that sum divided by
+the count of `binLoop_counts`: the mean over the samples of this epoch with `l + k·bs ≤ t < l + (k+1)·bs`, and NaN
+(0/0 in the caller) when the bin holds none -/
+theorem binLoop_sums (ts dat : Array Int) (maxt : Nat) (hm : maxt ≤ ts.size) (hs : Sorted ts) (e bs : Int) (hbs : 0 < bs)
+    (nb : Nat) (l : Int) (t : Nat) (out : Array (Int × Nat × Int)) (ht : t ≤ maxt)
+    (hlb : ∀ i, t ≤ i → i < maxt → (hi : i < ts.size) → l ≤ ts[i]) :
+    ∀ k, out.size ≤ k → (hk : k < (binLoop ts dat maxt hm e bs nb l t out).size) →
+      (binLoop ts dat maxt hm e bs nb l t out)[k].2.2 =
+        sumBin ts dat t maxt (l + ((k - out.size : Nat) : Int) * bs) (l + (((k - out.size : Nat) : Int) + 1) * bs) := by
+  induction nb generalizing l t out with
+  | zero => intro k hk1 hk; simp only [binLoop] at hk; omega
+  | succ nb ih =>
+    intro k hk1 hk
+    simp only [binLoop] at hk ⊢
+    split at hk
+    · omega
+    · rename_i hle
+      split
+      · rename_i hgt; exact absurd hgt hle
+      · obtain ⟨c1, c2, c3, c4, c5⟩ := countIn_counts ts dat maxt hm hs l (l + bs) t ht hlb
+        have cs := countIn_sums ts dat maxt hm hs l (l + bs) t ht hlb
+        have hcen := binLoop_centres ts dat maxt hm e bs nb (l + bs) (countIn ts dat maxt hm (l + bs) t 0 0).1
+          (out.push (2 * l + bs, (countIn ts dat maxt hm (l + bs) t 0 0).2.1, (countIn ts dat maxt hm (l + bs) t 0 0).2.2))
+        by_cases hk0 : k = out.size
+        · subst hk0
+          rw [hcen.2.2.1 out.size (by simp) hk]
+          simp only [Array.getElem_push_eq, Nat.sub_self]
+          rw [cs]; simp
+        · have := ih (l + bs) (countIn ts dat maxt hm (l + bs) t 0 0).1
+            (out.push (2 * l + bs, (countIn ts dat maxt hm (l + bs) t 0 0).2.1, (countIn ts dat maxt hm (l + bs) t 0 0).2.2))
+            c3 (fun i h1 h2 hi => c4 i h1 h2 hi) k (by simp; omega) hk
+          rw [this]
+          simp only [Array.size_push]
+          have e1 : ((k - (out.size + 1) : Nat) : Int) = ((k - out.size : Nat) : Int) - 1 := by omega
+          rw [e1]
+          have e2 : l + bs + (((k - out.size : Nat) : Int) - 1) * bs = l + ((k - out.size : Nat) : Int) * bs := by
+            rw [Int.sub_mul]; omega
+          have e3 : l + bs + (((k - out.size : Nat) : Int) - 1 + 1) * bs = l + (((k - out.size : Nat) : Int) + 1) * bs := by
+            rw [Int.sub_add_cancel, Int.add_mul]; omega
+          rw [e2, e3]
+          symm
+          apply sumBin_shift ts dat t _ maxt hm _ _ c2
+          intro i h1 h2 hi
+          have := c5 i h1 h2 hi
+          have hpos : (1 : Int) ≤ ((k - out.size : Nat) : Int) := by omega
+          have : bs ≤ ((k - out.size : Nat) : Int) * bs := by
+            have := Int.mul_le_mul_of_nonneg_right hpos (Int.le_of_lt hbs)
+            simpa using this
+          omega
+
+
 /-- **the preallocated number of bins never truncates**: past `nbBins` bins the centre test would
 have stopped the loop anyway -/
 theorem nbBins_suffices (s e bs : Int) (hbs : 0 < bs) : 2 * (s + (nbBins s e bs : Int) * bs) + bs > 2 * e := by
